@@ -135,15 +135,22 @@ def generate(repo):
     # ---------------------------------------------------------------- circle
     path = os.path.join(repo, FIELDS, "field_BH_circle.py")
     fn = func(ast.parse(open(path).read()), "BHJM_circle", path)
-    sing = [n for n in ast.walk(fn) if isinstance(n, ast.Compare) and len(n.ops) == 1 and isinstance(n.ops[0], ast.Lt)
-            and ast.unparse(n.left) == "abs(r - r0)" and isinstance(n.comparators[0], ast.BinOp)
-            and isinstance(n.comparators[0].op, ast.Mult) and isinstance(n.comparators[0].left, ast.Constant)
-            and ast.unparse(n.comparators[0].right) == "r0"]
-    expect(len(sing) == 1, "BHJM_circle: singularity test `abs(r - r0) < c * r0` not found exactly once")
-    c = sing[0].comparators[0].left.value
+    def scaled_tests(lhs):
+        return [n for n in ast.walk(fn) if isinstance(n, ast.Compare) and len(n.ops) == 1 and isinstance(n.ops[0], ast.Lt)
+                and ast.unparse(n.left) == lhs and isinstance(n.comparators[0], ast.BinOp)
+                and isinstance(n.comparators[0].op, ast.Mult) and isinstance(n.comparators[0].left, ast.Constant)
+                and isinstance(n.comparators[0].left.value, float) and ast.unparse(n.comparators[0].right) == "r0"]
+    sing, singz = scaled_tests("abs(r - r0)"), scaled_tests("abs(z)")
+    expect(len(sing) == 1 and len(singz) == 1,
+           "BHJM_circle: singularity tests `abs(r - r0) < c * r0` and `abs(z) < c * r0` not found exactly once each")
+    m2 = [n for n in ast.walk(fn) if isinstance(n, ast.Assign) and isinstance(n.targets[0], ast.Name) and n.targets[0].id == "mask2"]
+    expect(len(m2) == 1 and ast.unparse(m2[0].value).startswith("np.logical_and(abs(r - r0) <")
+           and sing[0] in ast.walk(m2[0]) and singz[0] in ast.walk(m2[0]), "BHJM_circle: mask2 has an unexpected shape")
+    c, cz = sing[0].comparators[0].left.value, singz[0].comparators[0].left.value
     fl = float_literals(fn)
-    expect(sorted(fl) == sorted([float(c), 0.5]), f"BHJM_circle: unexpected float literals {fl}")
+    expect(sorted(fl) == sorted([float(c), float(cz), 0.5]), f"BHJM_circle: unexpected float literals {fl}")
     expect(not isclose_calls(fn), "BHJM_circle: unexpected isclose call")
-    emit("cir_sing_rtol", float(c), "field_BH_circle.py BHJM_circle mask2")
+    emit("cir_sing_rtol", float(c), "field_BH_circle.py BHJM_circle mask2 (r)")
+    emit("cir_sing_z_rtol", float(cz), "field_BH_circle.py BHJM_circle mask2 (z)")
 
     return HEADER + "\n" + "\n".join(defs)
